@@ -173,6 +173,40 @@ func genC13(e *emitter, tier string) {
 		e.emit(validateCase("single", g, nil))                               // missing
 		e.emit(validateCase("single", g, []SupJ{{"y", []int{2}}}))           // wrong name only
 	}
+	// an input without usable shape information (no type, a non-tensor type, no shape, no dimensions) is
+	// not checked - and must not stop the inputs declared after it from being checked
+	for _, how := range []string{"", "tensor", "shape", "dims"} {
+		for pos := 0; pos < 3; pos++ {
+			g := &GraphJ{}
+			for i := 0; i < 3; i++ {
+				vi := VInfoJ{Name: fmt.Sprintf("in%d", i), Dt: "f32", Dims: []any{2, "N"}}
+				if i == pos {
+					vi.NoShape, vi.How = true, how
+				}
+				g.Inputs = append(g.Inputs, vi)
+			}
+			for _, bad := range []int{-1, 0, 1, 2} {
+				for _, kind := range []string{"rank", "dim", "missing"} {
+					var sup []SupJ
+					for i := 0; i < 3; i++ {
+						sh := []int{2, 3}
+						if i == bad {
+							switch kind {
+							case "rank":
+								sh = []int{2, 3, 1}
+							case "dim":
+								sh = []int{3, 3}
+							case "missing":
+								continue
+							}
+						}
+						sup = append(sup, SupJ{fmt.Sprintf("in%d", i), sh})
+					}
+					e.emit(validateCase("unshaped-neighbour", g, sup))
+				}
+			}
+		}
+	}
 	// multi-input signatures, initializer shadowing, extra and permuted names (random, structured)
 	for k := 0; k < nrand; k++ {
 		n := 1 + e.rng.Intn(3)
@@ -192,8 +226,9 @@ func genC13(e *emitter, tier string) {
 				}
 			}
 			vi := VInfoJ{Name: name, Dt: "f32", Dims: dims}
-			if e.rng.Intn(12) == 0 {
+			if e.rng.Intn(8) == 0 {
 				vi.NoShape = true
+				vi.How = []string{"", "tensor", "shape", "dims"}[e.rng.Intn(4)]
 			}
 			g.Inputs = append(g.Inputs, vi)
 			shadow := e.rng.Intn(4) == 0
